@@ -48,21 +48,25 @@ CONTRACTS = {
     returns='bool',
     defs={'QUOTAS': (['L'], 'valid_list(self.model, L, self.instance_options[Instance_options.PC])', 'opaque')},
     ensures=[('valid-iff-every-project-found-and-quotas-respected', 'result == (all_found(matching_pairs) and QUOTAS(matching_pairs))'),
-             ]),
+             # (a consequence of the line above, stated separately for callers that keep QUOTAS folded)
+             ('a-valid-list-respects-lecturer-capacity', 'implies(result, forall(k, 0, self.model.num_lecturers, loadL(matching_pairs, k) <= self.model.lec_upper_quotas[k]))')]),
 
  # run: fold over the enumeration E[0..N) (T11).  rec('valid')[u] / rec('size')[u] are the specification-level validity and
  # size of the u-th enumerated assignment (ghost history).
  # run: fold over the enumeration E[0..N) (T11).  rec(x)[u] is the specification-level value of statistic x for the u-th
  # enumerated assignment (ghost history): validity, size, the two cost pairs, degree, profile, max / sum lecturer deviation.
  M + 'run': dict(
-    requires=['sizes_ok(self.model)', 'pairs_ok(self.model)', 'self.model.num_lecturers >= 1'],
+    requires=['sizes_ok(self.model)', 'pairs_ok(self.model)', 'self.model.num_lecturers >= 1',
+              ('well-formed-targets', 'forall(k, 0, self.model.num_lecturers, 0 <= self.model.lec_targets[k] and self.model.lec_targets[k] <= self.model.lec_upper_quotas[k])')],
     defs={'PC': ([], 'self.instance_options[Instance_options.PC]'),
+          'EQV': (['a', 'b'], 'not more_greedy(a, b) and not more_greedy(b, a)'),
           # the validity predicate of is_valid's contract, kept folded (an atom) in the fold invariants
           'QUOTAS': (['L'], 'valid_list(self.model, L, self.instance_options[Instance_options.PC])', 'opaque'),
           'VALID': (['L'], 'all_found(L) and QUOTAS(L)'),
           'V': (['u'], "rec('valid')[u]"), 'TOP': (['u'], "rec('valid')[u] and rec('size')[u] == self.optimal_size"),
           'lexlt': (['a0', 'a1', 'b0', 'b1'], 'a0 < b0 or (a0 == b0 and a1 < b1)'),
           'mp': ([], 'matching_pairs'),
+          'SAME': (['a', 'b'], 'a == b'),
           'devk': (['L', 'k'], 'abs(loadL_upto(L, k, len(L)) - self.model.lec_targets[k])')},
     merge_ifs=True, sealed=('QUOTAS',),        # validity is an atom here; its meaning is is_valid's postcondition
     loops={0: dict(
@@ -86,10 +90,37 @@ CONTRACTS = {
                    ('mindegree-lower-bound', "forall(u, 0, _k, implies(TOP(u), self.optimal_maxsizemindegree <= rec('deg')[u]))"),
                    ('generous-none-better', "forall(u, 0, _k, implies(TOP(u), not more_generous(rec('prof')[u], self.optimal_generousmaxprofile)))"),
                    ('greedymax-none-better', "forall(u, 0, _k, implies(TOP(u), not more_greedy(rec('prof')[u], self.optimal_greedymaxprofile)))"),
+                   # ... and each of those five is the value of some maximum-size matching (attained; profiles compared through the orders:
+                   #     two profiles of one length neither of which is more generous / greedy than the other are equal)
+                   ('mincost-attained', "implies(self.optimal_size >= 0, exists(u, 0, _k, TOP(u) and rec('c0')[u] == self.optimal_maxsizemincost[0] and rec('c1')[u] == self.optimal_maxsizemincost[1]))"),
+                   ('minsqcost-attained', "implies(self.optimal_size >= 0, exists(u, 0, _k, TOP(u) and rec('s0')[u] == self.optimal_maxsizeminsqcost[0] and rec('s1')[u] == self.optimal_maxsizeminsqcost[1]))"),
+                   ('mindegree-attained', "implies(self.optimal_size >= 0, exists(u, 0, _k, TOP(u) and rec('deg')[u] == self.optimal_maxsizemindegree))"),
+                   ('generous-attained', "implies(self.optimal_size >= 0, exists(u, 0, _k, TOP(u) and SAME(rec('prof')[u], self.optimal_generousmaxprofile)))"),
+                   ('greedymax-attained', "implies(self.optimal_size >= 0, exists(u, 0, _k, TOP(u) and SAME(rec('prof')[u], self.optimal_greedymaxprofile)))"),
                    # over all valid matchings: most greedy profile, least maximum / total lecturer deviation (starting from the initial values)
                    ('greedy-none-better', "forall(u, 0, _k, implies(V(u), not more_greedy(rec('prof')[u], self.optimal_greedyprofile)))"),
                    ('maxdev-lower-bound', "forall(u, 0, _k, implies(V(u), self.optimal_max_lec_abs_diff <= rec('maxdev')[u]))"),
-                   ('sumdev-lower-bound', "forall(u, 0, _k, implies(V(u), self.optimal_sum_lec_abs_diff <= rec('sumdev')[u]))")])},
+                   ('sumdev-lower-bound', "forall(u, 0, _k, implies(V(u), self.optimal_sum_lec_abs_diff <= rec('sumdev')[u]))"),
+                   # ... and each of those three is attained.  Until the first valid assignment the accumulators hold their initial values,
+                   # which no valid assignment can exceed (zeros; the largest upper quota; that times the number of lecturers)
+                   ('initial-values-until-first-valid', "implies(self.optimal_size == -1, forall(i, 0, len(self.optimal_greedyprofile), self.optimal_greedyprofile[i] == 0)"
+                    " and forall(k, 0, self.model.num_lecturers, self.model.lec_upper_quotas[k] <= self.optimal_max_lec_abs_diff)"
+                    " and self.optimal_sum_lec_abs_diff == self.optimal_max_lec_abs_diff * self.model.num_lecturers)"),
+                   ('greedy-attained', "implies(self.optimal_size >= 0, exists(u, 0, _k, V(u) and EQV(rec('prof')[u], self.optimal_greedyprofile)))"),
+                   ('maxdev-attained', "implies(self.optimal_size >= 0, exists(u, 0, _k, V(u) and rec('maxdev')[u] == self.optimal_max_lec_abs_diff))"),
+                   ('sumdev-attained', "implies(self.optimal_size >= 0, exists(u, 0, _k, V(u) and rec('sumdev')[u] == self.optimal_sum_lec_abs_diff))"),
+                   ])},
+    # a sum of num_lecturers deviations, each at most M, is at most num_lecturers * M
+    use_lemmas={'after_call:_get_sum_lec_abs_diff': [
+        ('SUM/le', {'f': 'lam(k, self.model.num_lecturers, devk(matching_pairs, k))', 'g': 'lam(k, self.model.num_lecturers, self.optimal_max_lec_abs_diff)',
+                    'n': 'self.model.num_lecturers'}, 'if-applicable'),
+        ('SUM/const', {'n': 'self.model.num_lecturers', 'cst': 'self.optimal_max_lec_abs_diff'})]},
+    # proof cuts: while no valid assignment has been seen the accumulators still dominate every valid assignment's value
+    asserts={'after_call:_get_profile': [('profile-counts-are-non-negative', 'forall(i, 0, len(result), result[i] >= 0)'),
+                                         ('initial-zero-profile-is-not-more-greedy', 'implies(self.optimal_size == -1, not more_greedy(self.optimal_greedyprofile, result))')],
+             'after_call:_get_max_lec_abs_diff': [('initial-maximum-deviation-dominates', 'implies(self.optimal_size == -1, result <= self.optimal_max_lec_abs_diff)')],
+             'after_call:_get_sum_lec_abs_diff': [('every-deviation-is-at-most-the-initial-maximum', 'implies(self.optimal_size == -1, forall(k, 0, self.model.num_lecturers, devk(matching_pairs, k) <= self.optimal_max_lec_abs_diff))'),
+                                                  ('initial-total-deviation-dominates', 'implies(self.optimal_size == -1, result <= self.optimal_sum_lec_abs_diff)')]},
     modifies=['self.optimal_size', 'self.optimal_maxsizemincost', 'self.optimal_maxsizeminsqcost', 'self.optimal_maxsizemindegree',
               'self.optimal_generousmaxprofile', 'self.optimal_greedymaxprofile', 'self.optimal_greedyprofile',
               'self.optimal_max_lec_abs_diff', 'self.optimal_sum_lec_abs_diff'],
@@ -102,7 +133,19 @@ CONTRACTS = {
              ('mindegree-over-maximum-size', "forall(u, 0, ENUM_len(), implies(TOP(u), self.optimal_maxsizemindegree <= rec('deg')[u]))"),
              ('generous-and-greedy-over-maximum-size', "forall(u, 0, ENUM_len(), implies(TOP(u), not more_generous(rec('prof')[u], self.optimal_generousmaxprofile) and not more_greedy(rec('prof')[u], self.optimal_greedymaxprofile)))"),
              ('greedy-over-all-valid', "forall(u, 0, ENUM_len(), implies(V(u), not more_greedy(rec('prof')[u], self.optimal_greedyprofile)))"),
-             ('deviations-over-all-valid', "forall(u, 0, ENUM_len(), implies(V(u), self.optimal_max_lec_abs_diff <= rec('maxdev')[u] and self.optimal_sum_lec_abs_diff <= rec('sumdev')[u]))")]),
+             ('deviations-over-all-valid', "forall(u, 0, ENUM_len(), implies(V(u), self.optimal_max_lec_abs_diff <= rec('maxdev')[u] and self.optimal_sum_lec_abs_diff <= rec('sumdev')[u]))"),
+             ('minsqcost-over-maximum-size', "forall(u, 0, ENUM_len(), implies(TOP(u), not lexlt(rec('s0')[u], rec('s1')[u], self.optimal_maxsizeminsqcost[0], self.optimal_maxsizeminsqcost[1])))"),
+             # every stored optimum is the value of an enumerated valid assignment (of maximum size where the statistic is taken over those)
+             ('maximum-size-optima-are-attained', "implies(self.optimal_size >= 0,"
+              " exists(u, 0, ENUM_len(), TOP(u) and rec('c0')[u] == self.optimal_maxsizemincost[0] and rec('c1')[u] == self.optimal_maxsizemincost[1])"
+              " and exists(u, 0, ENUM_len(), TOP(u) and rec('s0')[u] == self.optimal_maxsizeminsqcost[0] and rec('s1')[u] == self.optimal_maxsizeminsqcost[1])"
+              " and exists(u, 0, ENUM_len(), TOP(u) and rec('deg')[u] == self.optimal_maxsizemindegree)"
+              " and exists(u, 0, ENUM_len(), TOP(u) and SAME(rec('prof')[u], self.optimal_generousmaxprofile))"
+              " and exists(u, 0, ENUM_len(), TOP(u) and SAME(rec('prof')[u], self.optimal_greedymaxprofile)))"),
+             ('all-valid-optima-are-attained', "implies(self.optimal_size >= 0,"
+              " exists(u, 0, ENUM_len(), V(u) and EQV(rec('prof')[u], self.optimal_greedyprofile))"
+              " and exists(u, 0, ENUM_len(), V(u) and rec('maxdev')[u] == self.optimal_max_lec_abs_diff)"
+              " and exists(u, 0, ENUM_len(), V(u) and rec('sumdev')[u] == self.optimal_sum_lec_abs_diff))")]),
  M + 'get_results': dict(
     self_fields={'optimal_size': 'int', 'optimal_maxsizemincost': ('tuple', 'int', 'int'), 'optimal_maxsizeminsqcost': ('tuple', 'int', 'int'),
                  'optimal_maxsizemindegree': 'int', 'optimal_generousmaxprofile': ('list', 'int'), 'optimal_greedymaxprofile': ('list', 'int'),
